@@ -38,6 +38,8 @@ type ConvoyCase struct {
 	Ops  []ConvoyOp `json:"ops"`
 	// NoLever: do not keep the lock busy (plain simultaneous start).
 	NoLever bool `json:"nolever,omitempty"`
+	// Names: templates of the spellings of the three addresses (names.go); empty: a0, a1, a2
+	Names []string `json:"names,omitempty"`
 }
 
 // ConvoyOp is one call of the convoy.
@@ -89,8 +91,16 @@ func runConvoy(cc *ConvoyCase) (st convoyStats, rerr error) {
 	if len(cc.Held) < 1 || len(cc.Held) > 64 || len(cc.Ops) < 1 || len(cc.Ops) > 256 {
 		return st, newVerr("harness-error", "convoy case out of range")
 	}
+	tab, distinct := addrTable(cc.Names, convoyAddrs)
+	for _, a := range tab {
+		distinct = distinct && foldKey(a) != "z"
+	}
+	if !distinct {
+		return st, newVerr("harness-error", "the address spellings of the case are not pairwise different after case folding (or one of them is the lever's)")
+	}
 	var mu sync.Mutex
 	var all []*grpc.ClientConn
+	owner := map[*grpc.ClientConn]int{} // address index of a connection, -1: the lever's
 	var dials [convoyAddrs]int
 	var firstErr atomic.Value
 	fail := func(class, format string, a ...any) {
@@ -117,14 +127,17 @@ func runConvoy(cc *ConvoyCase) (st convoyStats, rerr error) {
 				c.Connect() // leaves idle mode: the resolver is built (it never resolves anything)
 			}
 		} else {
-			c, err = grpc.NewClient("passthrough:///"+target, grpc.WithTransportCredentials(insecure.NewCredentials()))
+			// the spelling of the address is never parsed by gRPC
+			c, err = grpc.NewClient("passthrough:///c16", grpc.WithTransportCredentials(insecure.NewCredentials()))
 		}
 		if err == nil {
 			mu.Lock()
 			all = append(all, c)
+			owner[c] = -1
 			for i := 0; i < convoyAddrs; i++ {
-				if target == addrName(i) {
+				if target == tab[i] {
 					dials[i]++
+					owner[c] = i
 				}
 			}
 			mu.Unlock()
@@ -153,7 +166,7 @@ func runConvoy(cc *ConvoyCase) (st convoyStats, rerr error) {
 		h := &convoyHandle{ai: ai}
 		var err error
 		guarded(fmt.Sprintf("Connection(%s) of handle %d", addrName(ai), i), func() {
-			h.conn, h.done, err = m.Connection(bg, addrName(ai), connection.DEFAULT)
+			h.conn, h.done, err = m.Connection(bg, tab[ai], connection.DEFAULT)
 		})
 		if e := firstErr.Load(); e != nil {
 			return st, e.(error)
@@ -264,7 +277,7 @@ func runConvoy(cc *ConvoyCase) (st convoyStats, rerr error) {
 			acqs = append(acqs, r)
 			launch(func() {
 				guarded(fmt.Sprintf("op %d: Connection(%s)", i, addrName(r.ai)), func() {
-					r.conn, r.done, r.err = m.Connection(bg, addrName(r.ai), connection.DEFAULT)
+					r.conn, r.done, r.err = m.Connection(bg, tab[r.ai], connection.DEFAULT)
 				})
 			})
 		default:
@@ -339,7 +352,7 @@ func runConvoy(cc *ConvoyCase) (st convoyStats, rerr error) {
 		// connections of this address that nobody holds any more are closed
 		mu.Lock()
 		for _, c := range all {
-			if c.Target() == "passthrough:///"+addr && c != cur && c.GetState() != connectivity.Shutdown {
+			if owner[c] == ai && c != cur && c.GetState() != connectivity.Shutdown {
 				mu.Unlock()
 				return st, newVerr("not-closed-at-last-release", "after the convoy every holder of a connection to %s has released it, but it is in state %v", addr, c.GetState())
 			}
@@ -353,7 +366,7 @@ func runConvoy(cc *ConvoyCase) (st convoyStats, rerr error) {
 		var c2 *grpc.ClientConn
 		var d2 func()
 		var e2 error
-		guarded("Connection("+addr+") after the convoy", func() { c2, d2, e2 = m.Connection(bg, addr, connection.DEFAULT) })
+		guarded("Connection("+addr+") after the convoy", func() { c2, d2, e2 = m.Connection(bg, tab[ai], connection.DEFAULT) })
 		if e := firstErr.Load(); e != nil {
 			return st, e.(error)
 		}
@@ -401,7 +414,7 @@ func runConvoy(cc *ConvoyCase) (st convoyStats, rerr error) {
 		var c *grpc.ClientConn
 		var d func()
 		var err error
-		guarded("final Connection("+addr+")", func() { c, d, err = m.Connection(bg, addr, connection.DEFAULT) })
+		guarded("final Connection("+addr+")", func() { c, d, err = m.Connection(bg, tab[ai], connection.DEFAULT) })
 		if e := firstErr.Load(); e != nil {
 			return st, e.(error)
 		}
@@ -420,7 +433,7 @@ func runConvoy(cc *ConvoyCase) (st convoyStats, rerr error) {
 	defer mu.Unlock()
 	for i, c := range all {
 		if s := c.GetState(); s != connectivity.Shutdown {
-			return st, newVerr("not-closed-at-last-release", "every handle has been released, but connection #%d (%s) is in state %v", i, c.Target(), s)
+			return st, newVerr("not-closed-at-last-release", "every handle has been released, but connection #%d (address index %d) is in state %v", i, owner[c], s)
 		}
 	}
 	return st, nil
